@@ -1,0 +1,302 @@
+//go:build verif
+
+// Exports for the external verification harness (property C11: fork
+// identities and journal routing).  Compiled only with -tags verif; adds no
+// behaviour to normal builds.
+
+package core
+
+import (
+	"fmt"
+	"os"
+	"path"
+
+	"github.com/martian-lang/martian/martian/syntax"
+	"github.com/martian-lang/martian/martian/util"
+)
+
+// VerifMakeKeySafe exposes makeKeySafe.
+func VerifMakeKeySafe(k string) string { return makeKeySafe(k) }
+
+// VerifEncodeJournalName exposes encodeJournalName.Replace.
+func VerifEncodeJournalName(s string) string { return encodeJournalName.Replace(s) }
+
+// VerifJobJournalRe returns the source text of jobJournalRe.
+func VerifJobJournalRe() string { return jobJournalRe.String() }
+
+// VerifParseRunFilename exposes Node.parseRunFilename.
+func VerifParseRunFilename(name string) (string, string, int, string, string) {
+	return (*Node)(nil).parseRunFilename(name)
+}
+
+// VerifForkPart describes one ForkSourcePart: what its source, its range and
+// its id answer through their interfaces.
+type VerifForkPart struct {
+	// Source (syntax.MapCallSource): 0 single, 1 array, 2 map.
+	Mode    int
+	Known   bool
+	SrcLen  int      // ArrayLength() when Known and array
+	SrcKeys []string // Keys() when Known and map
+	// Range: 0 nil, 1 arrayLengthRange, 2 mapKeyRange.
+	RangeKind int
+	RangeLen  int
+	RangeKeys []string
+	// Id: 0 arrayIndexFork, 1 mapKeyFork, 2 emptyFork, 3 undeterminedFork.
+	IdKind int
+	Index  int
+	Key    string
+}
+
+type verifSource struct{ p *VerifForkPart }
+
+func (s verifSource) GoString() string { return fmt.Sprintf("verif%v", *s.p) }
+func (s verifSource) CallMode() syntax.CallMode {
+	switch s.p.Mode {
+	case 1:
+		return syntax.ModeArrayCall
+	case 2:
+		return syntax.ModeMapCall
+	}
+	return syntax.ModeSingleCall
+}
+func (s verifSource) KnownLength() bool { return s.p.Known }
+func (s verifSource) ArrayLength() int {
+	if s.p.Known && s.p.Mode == 1 {
+		return s.p.SrcLen
+	}
+	return -1
+}
+func (s verifSource) Keys() map[string]syntax.Exp {
+	if s.p.Known && s.p.Mode == 2 {
+		m := make(map[string]syntax.Exp, len(s.p.SrcKeys))
+		for _, k := range s.p.SrcKeys {
+			m[k] = nil
+		}
+		return m
+	}
+	return nil
+}
+
+func verifForkId(parts []VerifForkPart) ForkId {
+	id := make(ForkId, len(parts))
+	for i := range parts {
+		p := &parts[i]
+		fp := &ForkSourcePart{
+			Split: &syntax.SplitExp{Source: verifSource{p}},
+		}
+		switch p.RangeKind {
+		case 1:
+			fp.Range = arrayLengthRange(p.RangeLen)
+		case 2:
+			fp.Range = mapKeyRange(p.RangeKeys)
+		}
+		switch p.IdKind {
+		case 0:
+			fp.Id = arrayIndexFork(p.Index)
+		case 1:
+			fp.Id = mapKeyFork(p.Key)
+		case 2:
+			fp.Id = emptyFork{}
+		default:
+			fp.Id = undeterminedFork{}
+		}
+		id[i] = fp
+	}
+	return id
+}
+
+// VerifForkIdString runs ForkId.ForkIdString on the described fork id.
+// kind: 0 ok, 1 error returned, 2 panic.
+func VerifForkIdString(parts []VerifForkPart) (s string, kind int) {
+	defer func() {
+		if r := recover(); r != nil {
+			s, kind = "", 2
+		}
+	}()
+	s, err := verifForkId(parts).ForkIdString()
+	if err != nil {
+		return s, 1
+	}
+	return s, 0
+}
+
+// VerifTree is a pipestance skeleton: real Node, Fork and Chunk objects
+// (built by NewFork / NewChunk) without a runtime, for exercising the
+// journal-name construction and the routing of Node.refreshState.
+type VerifTree struct {
+	top   *TopNode
+	nodes []*Node
+}
+
+// VerifNewTree makes the top node; fqname is "ID.<psid>", root a directory
+// name that need not exist.
+func VerifNewTree(psid, root string) *VerifTree {
+	top := &TopNode{
+		fqname:      "ID." + psid,
+		journalPath: path.Join(root, "journal"),
+		allNodes:    make(map[string]*Node),
+	}
+	top.node.top = top
+	top.node.path = root
+	top.node.call = &syntax.CallGraphPipeline{
+		CallGraphStage: syntax.CallGraphStage{Fqid: top.fqname},
+	}
+	return &VerifTree{top: top}
+}
+
+// AddNode adds a node whose fully qualified id is top.fqname + "." + rel,
+// as a subnode of parent (-1: of the top node).  Returns its number.
+func (t *VerifTree) AddNode(parent int, rel string) int {
+	pn := &t.top.node
+	if parent >= 0 {
+		pn = t.nodes[parent]
+	}
+	n := &Node{
+		parent: pn,
+		top:    t.top,
+		call: &syntax.CallGraphPipeline{
+			CallGraphStage: syntax.CallGraphStage{Fqid: t.top.fqname + "." + rel},
+		},
+		path: path.Join(pn.path, path.Base(rel)),
+	}
+	if pn.subnodes == nil {
+		pn.subnodes = make(map[string]Nodable)
+	}
+	pn.subnodes[fmt.Sprintf("%06d", len(t.nodes))] = n
+	t.nodes = append(t.nodes, n)
+	return len(t.nodes) - 1
+}
+
+// AddFork appends a fork with the described id (NewFork) and nchunks chunks
+// (NewChunk, with the width computed as Fork.updateId / the split do).
+// ok is false if NewFork panicked (ForkIdString returned an error).
+func (t *VerifTree) AddFork(node int, parts []VerifForkPart, nchunks int) (ok bool) {
+	defer func() {
+		if r := recover(); r != nil {
+			ok = false
+		}
+	}()
+	n := t.nodes[node]
+	f := NewFork(n, len(n.forks), verifForkId(parts))
+	// Fork.updateId and the split completion both use this width.
+	width := util.WidthForInt(nchunks)
+	for i := 0; i < nchunks; i++ {
+		f.chunks = append(f.chunks, NewChunk(f, i, new(ChunkDef), width))
+	}
+	n.forks = append(n.forks, f)
+	return true
+}
+
+// ForkNames returns id, directory and fqname of a fork.
+func (t *VerifTree) ForkNames(node, fork int) (id, dir, fqname string) {
+	f := t.nodes[node].forks[fork]
+	return f.id, f.path, f.fqname
+}
+
+// ChunkNames returns directory and fqname of a chunk.
+func (t *VerifTree) ChunkNames(node, fork, chunk int) (dir, fqname string) {
+	c := t.nodes[node].forks[fork].chunks[chunk]
+	return c.metadata.path, c.fqname
+}
+
+// JournalFile returns the base name of the journal file that the job of the
+// given owner writes for metadata file `file`: mrp hands
+// Metadata.journalFile() to the job (Node.runJob), the job (mrjob) builds its
+// Metadata with NewMetadataRunWithJournalPath and calls UpdateJournal, which
+// really creates the file here (under a scratch directory) so the name is
+// whatever the code produces.  runType is split, join or main; chunk is the
+// chunk number for main.
+func (t *VerifTree) JournalFile(scratch string, node, fork, chunk int,
+	runType, uniq, file string) (string, error) {
+	f := t.nodes[node].forks[fork]
+	var m *Metadata
+	switch runType {
+	case "split":
+		m = f.split_metadata
+	case "join":
+		m = f.join_metadata
+	default:
+		m = f.chunks[chunk].metadata
+	}
+	old := m.uniquifier
+	m.uniquifier = uniq
+	runFile := m.journalFile()
+	m.uniquifier = old
+	// what mrjob does with its last argument
+	fqname := path.Base(runFile)
+	job := NewMetadataRunWithJournalPath(fqname, "", "", scratch, runType)
+	if err := job.UpdateJournal(MetadataFileName(file)); err != nil {
+		return "", err
+	}
+	names, err := os.ReadDir(scratch)
+	if err != nil {
+		return "", err
+	}
+	if len(names) != 1 {
+		return "", fmt.Errorf("%d journal files", len(names))
+	}
+	name := names[0].Name()
+	return name, os.Remove(path.Join(scratch, name))
+}
+
+// Route follows Node.refreshState for one journal file name: parse, find the
+// node, the fork, the chunk.  Returns node number (-1 none), fork position
+// (-1 none), chunk (-1 fork level, -2 unknown chunk), the uniquifier and
+// the metadata file name, and which Metadata object (0 fork, 1 split, 2 join,
+// 3 chunk) would take the update.
+func (t *VerifTree) Route(filename string) (node, fork, chunk int, uniq, state string, target int) {
+	node, fork, chunk = -1, -1, -1
+	fqname, forkIndex, chunkIndex, uniquifier, st := t.top.node.parseRunFilename(filename)
+	uniq, state = uniquifier, st
+	if fqname == "" {
+		return
+	}
+	n := t.top.node.find(fqname)
+	if n == nil {
+		return
+	}
+	node = -2 // the top node itself
+	for i, x := range t.nodes {
+		if x == n {
+			node = i
+		}
+	}
+	f := n.getFork(forkIndex)
+	if f == nil {
+		return
+	}
+	for i, x := range n.forks {
+		if x == f {
+			fork = i
+		}
+	}
+	if chunkIndex >= 0 {
+		if c := f.getChunk(chunkIndex); c != nil {
+			chunk = c.index
+			target = 3
+		} else {
+			chunk = -2
+		}
+		return
+	}
+	// Fork.updateState
+	switch {
+	case len(st) >= len(SplitPrefix) && st[:len(SplitPrefix)] == SplitPrefix:
+		target = 1
+	case len(st) >= len(JoinPrefix) && st[:len(JoinPrefix)] == JoinPrefix:
+		target = 2
+	default:
+		target = 0
+	}
+	return
+}
+
+// VerifUniquifierAccepted reports whether Metadata.cache records an update
+// carrying uniquifier `seen` when the metadata's current one is `current`.
+func VerifUniquifierAccepted(current, seen string) bool {
+	m := NewMetadata("verif", "/nonexistent/verif")
+	m.uniquifier = current
+	m.cache(CompleteFile, seen)
+	_, ok := m.contents[CompleteFile]
+	return ok
+}
